@@ -45,9 +45,16 @@ def _conc_index(ctx, idx, n):
 def _iter_items(s, ctx, it):
     """generator: yields nothing; returns python list of the remaining items of an IterM after applying its adapters"""
     out = []
+    while getattr(it, 'genfn', None) is not None:          # iter::from_fn: run the producer to exhaustion (the consumer takes everything)
+        o = yield from s.call_callable(ctx, it.genfn, [])
+        if o.variant == 0: it.genfn = None
+        else:
+            it.items.append(o.fields[0])
+            if len(it.items) > 256: raise Unsupported('iter::from_fn producer did not finish within 256 items')
     base = it.items[it.pos:]
     it.pos = len(it.items)
     idx = it.count
+    stop = False
     for v in base:
         x = v; keep = True;
         for kind, fn in it.adapters:
@@ -62,14 +69,34 @@ def _iter_items(s, ctx, it):
                 x = o.fields[0]
             elif kind == 'cloned' or kind == 'copied': x = clone_val(deref(x))
             elif kind == 'rev': pass
+            elif kind == 'inspect': yield from s.call_callable(ctx, fn, [Ref(Cell(x, 'it'))])
+            elif kind == 'take_while':
+                r = yield from s.call_callable(ctx, fn, [Ref(Cell(x, 'it'))])
+                if not ctx.branch(r): stop = True; keep = False; break
+            elif kind == 'skip_while':
+                if not it.state.get(id(fn)):
+                    r = yield from s.call_callable(ctx, fn, [Ref(Cell(x, 'it'))])
+                    if ctx.branch(r): keep = False; break
+                    it.state[id(fn)] = True
+            elif kind == 'map_while':
+                o = yield from s.call_callable(ctx, fn, [x])
+                if o.variant == 0: stop = True; keep = False; break
+                x = o.fields[0]
             else: raise Unsupported('iterator adapter ' + kind)
+        if stop: break
         if keep: out.append(x)
     it.count = idx
     return out
 
 
 def _iter_next(s, ctx, it):
-    while it.pos < len(it.items):
+    while True:
+        if it.pos >= len(it.items):
+            if getattr(it, 'genfn', None) is None: break
+            o = yield from s.call_callable(ctx, it.genfn, [])           # iter::from_fn: one more item on demand
+            if o.variant == 0: it.genfn = None; break
+            it.items.append(o.fields[0])
+            if len(it.items) > 256: raise Unsupported('iter::from_fn producer did not finish within 256 items')
         x = it.items[it.pos]; it.pos += 1; keep = True
         for kind, fn in it.adapters:
             if kind == 'enumerate': x = tup(it.count, x); it.count += 1
@@ -83,10 +110,50 @@ def _iter_next(s, ctx, it):
                 x = o.fields[0]
             elif kind in ('cloned', 'copied'): x = clone_val(deref(x))
             elif kind == 'rev': pass
+            elif kind == 'inspect': yield from s.call_callable(ctx, fn, [Ref(Cell(x, 'it'))])
+            elif kind == 'take_while':
+                r = yield from s.call_callable(ctx, fn, [Ref(Cell(x, 'it'))])
+                if not ctx.branch(r): it.pos = len(it.items); it.genfn = None; return none()
+            elif kind == 'skip_while':
+                if not it.state.get(id(fn)):
+                    r = yield from s.call_callable(ctx, fn, [Ref(Cell(x, 'it'))])
+                    if ctx.branch(r): keep = False; break
+                    it.state[id(fn)] = True
+            elif kind == 'map_while':
+                o = yield from s.call_callable(ctx, fn, [x])
+                if o.variant == 0: it.pos = len(it.items); it.genfn = None; return none()
+                x = o.fields[0]
             else: raise Unsupported('iterator adapter ' + kind)
         if keep: return some(x)
     if it.guard is not None: s.drop_val(ctx, it.guard); it.guard = None
     return none()
+
+
+def _slice_bounds(ctx, r, n):
+    """(start, end) of a range argument (`..`, `a..`, `..b`, `a..b`, `a..=b`) over a sequence of length n; panics as std does"""
+    if r is None: return 0, n
+    r = deref_all(r)
+    if isinstance(r, FnItem) and r.name.split('<')[0].strip().endswith('RangeFull'): return 0, n          # the unit struct `..` arrives as a bare path constant
+    if not isinstance(r, Agg): raise Unsupported('range argument ' + type(r).__name__)
+    def conc(v):
+        v = simp(v)
+        if is_z3(v) and z3.is_int_value(v): v = v.as_long()
+        if not is_conc(v): raise Unsupported('slice range with a symbolic bound')
+        return v
+    if r.ty == 'RangeFull': lo, hi = 0, n
+    elif r.ty == 'RangeTo': lo, hi = 0, conc(r.fields[0])
+    elif r.ty == 'RangeFrom': lo, hi = conc(r.fields[0]), n
+    elif r.ty == 'Range': lo, hi = conc(r.fields[0]), conc(r.fields[1])
+    elif r.ty == 'RangeInclusive': lo, hi = conc(r.fields[0]), conc(r.fields[1]) + 1
+    elif r.ty == 'RangeToInclusive': lo, hi = 0, conc(r.fields[0]) + 1
+    else: raise Unsupported('range argument ' + r.ty)
+    if lo > hi: raise Panic('slice index starts at %d but ends at %d' % (lo, hi), 'index')
+    if hi > n: raise Panic('range end index %d out of range for slice of length %d' % (hi, n), 'index')
+    return lo, hi
+
+
+def _from_fn(fn):
+    it = IterM([]); it.genfn = fn; return it
 
 
 def _mk_iter(d, kind=None, ctx=None):
@@ -112,6 +179,9 @@ def builtin(s, ctx, func, g, tc, A, caller, ln=None):
 def _builtin(s, ctx, func, g, tc, A, caller, ln, last):
     if False: yield None
     E = g.endswith
+    from . import builtins_ext
+    r_ = yield from builtins_ext.ext(s, ctx, func, g, tc, A, caller, ln, last)
+    if r_ is not NotImplemented: return r_
     # ------------------------------------------------------------ lazy / once / statics
     if tc and tc[0] == 'Lazy' and tc[2] in ('deref', 'deref_mut') or E('Lazy::force'):
         lz = yield from s.force_static(ctx, A[0])
@@ -156,7 +226,8 @@ def _builtin(s, ctx, func, g, tc, A, caller, ln, last):
     if re.search(r'(Mutex|RwLock)::(lock|read|write|upgradable_read)$', g):
         lk = deref_all(A[0])
         if not isinstance(lk, LockM): raise Unsupported('lock on ' + type(lk).__name__)
-        gd = yield from s.acquire(ctx, lk, 'r' if last == 'read' else 'w'); return gd
+        gd = yield from s.acquire(ctx, lk, 'r' if last == 'read' else 'w')
+        return ok(gd) if g.startswith('std::sync') else gd            # std's locks answer LockResult (poisoning is not modelled: no simulated thread unwinds while holding one)
     if re.search(r'(Mutex|RwLock)::(try_lock|try_read|try_write)$', g):
         lk = deref_all(A[0]); mode = 'r' if last == 'try_read' else 'w'
         yield from s.sched_point(ctx, 'try_lock')
@@ -203,7 +274,7 @@ def _builtin(s, ctx, func, g, tc, A, caller, ln, last):
         ty = mm.group(1) if mm else '?'
         ty = subst_type(ctx, ty)
         return Agg('FmtArg', 0, ['debug' if 'new_debug' in g else 'display', A[0], ty])
-    if E('fmt::Arguments::new') or E('Arguments::new_v1') or E('Arguments::new_const') or E('Arguments::from_str'):
+    if E('fmt::Arguments::new') or E('Arguments::new_v1') or E('Arguments::new_const') or E('Arguments::from_str') or E('Arguments::from_str_nonconst'):
         tmpl = A[0]; args = deref_all(A[1]) if len(A) > 1 else Agg('array', 0, [])
         return Agg('FmtArgs', 0, [tmpl, args])
     if E('fmt::format') or g in ('format', 'std::fmt::format', 'alloc::fmt::format'):
@@ -261,6 +332,7 @@ def _builtin(s, ctx, func, g, tc, A, caller, ln, last):
         d = deref_all(A[0])
         if d.cap is None: d.cap = ctx.fresh_int('vcap', len(d.items), 2 ** 36)
         return d.cap
+    if re.search(r'iter::(sources::from_fn::)?from_fn$', g): return _from_fn(A[0])
     if re.search(r'(VecDeque|Vec)::iter(_mut)?$', g) or E('<impl [T]>::iter') or E('<impl [T]>::iter_mut'):
         return _mk_iter(deref_all(A[0]), ctx=ctx)
     if E('VecDeque::remove'):
@@ -316,7 +388,8 @@ def _builtin(s, ctx, func, g, tc, A, caller, ln, last):
         if not is_conc(n): raise Unsupported('symbolic truncate')
         del d.items[n:]; return unit()
     if E('VecDeque::drain') or E('Vec::drain'):
-        d = deref_all(A[0]); items = list(d.items); d.items.clear(); return IterM(items)
+        d = deref_all(A[0]); lo_, hi_ = _slice_bounds(ctx, A[1] if len(A) > 1 else None, len(d.items))
+        items = d.items[lo_:hi_]; del d.items[lo_:hi_]; return IterM(items)
     if E('VecDeque::extend') or E('Vec::extend'):
         d = deref_all(A[0]); src = A[1]
         if isinstance(src, IterM): d.items.extend((yield from _iter_items(s, ctx, src)))
@@ -348,9 +421,11 @@ def _builtin(s, ctx, func, g, tc, A, caller, ln, last):
             best = None; bk = None
             for x in out:
                 k = yield from s.call_callable(ctx, A[1], [Ref(Cell(x, 'it'))])
-                if not (is_conc(k) or is_z3(k)): raise Unsupported(m + ' with a non-integer key')
                 # std: min_by_key keeps the first minimum, max_by_key the last maximum
-                if best is None or ctx.branch(simp(k < bk) if m == 'min_by_key' else simp(k >= bk)): best, bk = x, k
+                if not (is_conc(k) or is_z3(k)):
+                    from .builtins_ext import _cmp
+                    if best is None or (_cmp(ctx, k, bk) < 0 if m == 'min_by_key' else _cmp(ctx, k, bk) >= 0): best, bk = x, k
+                elif best is None or ctx.branch(simp(k < bk) if m == 'min_by_key' else simp(k >= bk)): best, bk = x, k
             return some(best) if best is not None else none()
         if m == 'rev':
             if it.adapters: raise Unsupported('rev after adapters')
@@ -379,7 +454,7 @@ def _builtin(s, ctx, func, g, tc, A, caller, ln, last):
                 acc = 0
                 lo, hi = 0, MAXU64
                 for x in out:
-                    acc = acc + x
+                    acc = acc + deref_all(x)
                     if not is_conc(acc):
                         if ctx.feasible(acc > hi):
                             if ctx.branch(acc > hi): raise Panic('attempt to add with overflow (iterator sum)', 'arith')
@@ -661,6 +736,9 @@ def _builtin(s, ctx, func, g, tc, A, caller, ln, last):
     if tc and tc[0] == 'Duration' and tc[1].startswith('Partial') and tc[2] in ('lt', 'le', 'gt', 'ge', 'eq', 'ne'):
         a, b = deref_all(A[0]).t, deref_all(A[1]).t
         return {'lt': a < b, 'le': a <= b, 'gt': a > b, 'ge': a >= b, 'eq': a == b, 'ne': a != b}[tc[2]]
+    if tc and tc[0] in ('VecDeque', 'Vec', 'slice', '[T]') and tc[1] in ('Index', 'IndexMut') and tc[2] in ('index', 'index_mut') and isinstance(deref_all(A[1]), Agg) and deref_all(A[1]).ty.startswith('Range'):
+        d = deref_all(A[0]); lo_, hi_ = _slice_bounds(ctx, A[1], len(d.items))
+        return Ref(Cell(SeqM(d.items[lo_:hi_], 'Vec'), 'subslice'))          # a view for reading (element objects are shared)
     if tc and tc[0] in ('VecDeque', 'Vec') and tc[1] in ('Index', 'IndexMut') and tc[2] in ('index', 'index_mut'):
         d = deref_all(A[0]); i = _conc_index(ctx, A[1], len(d.items))
         if i is None: raise Panic('index out of bounds', 'index')
@@ -802,6 +880,18 @@ def _builtin(s, ctx, func, g, tc, A, caller, ln, last):
         k_ = (id(v), last)
         if k_ not in ctx.rc_counts: ctx.rc_counts[k_] = (v, ctx.fresh_int(last, 1 if last == 'strong_count' else 0, 2 ** 20))
         return ctx.rc_counts[k_][1]
+    # ------------------------------------------------------------ the `?` operator on Option / Result
+    if tc and tc[1] == 'Try' and tc[2] == 'branch' and tc[0] in ('Option', 'Result'):
+        v = A[0]
+        if not (isinstance(v, Agg) and v.ty in ('Option', 'Result')): raise Unsupported('`?` on ' + type(v).__name__)
+        good = (v.variant == 1) if v.ty == 'Option' else (v.variant == 0)
+        if good: return Agg('ControlFlow', 0, [v.fields[0]])
+        return Agg('ControlFlow', 1, [none() if v.ty == 'Option' else err(v.fields[0])])
+    if tc and tc[1] == 'FromResidual' and tc[2] == 'from_residual' and tc[0] in ('Option', 'Result'):
+        r_ = A[0]
+        if tc[0] == 'Option': return none()
+        return err(r_.fields[0]) if isinstance(r_, Agg) and r_.ty == 'Result' else _unsup('from_residual of ' + type(r_).__name__)
+    if tc and tc[1] == 'Try' and tc[2] == 'from_output' and tc[0] in ('Option', 'Result'): return some(A[0]) if tc[0] == 'Option' else ok(A[0])
     mt = re.search(r'TryResult::<.*>::(try_unwrap|unwrap|is_present|is_absent|is_locked)$', g) or re.search(r'TryResult::(try_unwrap|unwrap|is_present|is_absent|is_locked)$', g)
     if mt:
         v = deref_all(A[0]) if mt.group(1).startswith('is_') else A[0]
@@ -926,5 +1016,8 @@ def _strlen(ctx, v):
     if is_z3(v.t):
         n = ctx._strlen(v.t); ctx.add(z3.And(n >= 0, n < 2 ** 32)); return n
     if isinstance(v.t, str): return len(v.t.encode('utf-8'))
+    from .builtins_ext import render_concrete
+    rc_ = render_concrete(v)
+    if rc_ is not None: return len(rc_.encode('utf-8'))
     # a rendered / joined text: its length is some number (it only ever sizes a buffer; the text itself stays symbolic)
     return ctx.fresh_int('strlen', 0, 2 ** 32)
